@@ -104,14 +104,24 @@ def unique_after_expansion(W) -> bool:
             if key in seen:
                 return False
             seen.add(key)
-    # also the unexpanded names must be unique per stage
+    # also the unexpanded names must be unique per stage, and must not coincide with a replica name of another
+    # component (`AA` replicated -> `AA0` next to a component that is itself called `AA0`: a reference `AA0:ref` is
+    # then ambiguous for a reader)
     raw = [(c["stage"], c["name"]) for c in W["components"]]
-    return len(set(raw)) == len(raw)
+    if len(set(raw)) != len(raw):
+        return False
+    for i, c in enumerate(W["components"]):
+        if len(names[i]) > 1:
+            for nm in names[i]:
+                if (c["stage"], nm) in raw:
+                    return False
+    return True
 
 
 @st.composite
 def workflows(draw, max_components=6, max_stages=3, names="simple", methods=("ref",), allow_paths=False,
-              allow_repeat=True, allow_shutdown=True, replicate_via_vars=False, max_n=3, abs_spelling=True):
+              allow_repeat=True, allow_shutdown=True, replicate_via_vars=False, max_n=3, abs_spelling=True,
+              allow_multi_ref=False):
     ncomp = draw(st.integers(1, max_components))
     nstages = draw(st.integers(1, min(max_stages, ncomp)))
     # non-decreasing stage indices covering 0..nstages-1
@@ -152,6 +162,12 @@ def workflows(draw, max_components=6, max_stages=3, names="simple", methods=("re
                     path = "out.stdout" if method == "output" else "a.tgz"
                 refs.append({"p": p, "abs": bool(abs_spelling and (stages[p] != stages[i] or draw(st.booleans()))),
                              "method": method, "path": path})
+                if allow_multi_ref and len(methods) > 1 and draw(st.integers(0, 4)) == 0:
+                    # the same producer referenced a second time through another method (e.g. :copy and :copyout)
+                    other = draw(st.sampled_from([m for m in methods if m != method]))
+                    path2 = path if other not in ("output", "extract") or path else \
+                        ("out.stdout" if other == "output" else "a.tgz")
+                    refs.append({"p": p, "abs": refs[-1]["abs"], "method": other, "path": path2})
         replicate = None
         if draw(st.integers(0, 3)) == 0:
             replicate = draw(st.sampled_from(["lit"] + (["global", "stage", "comp"] if replicate_via_vars else [])))
